@@ -148,6 +148,8 @@ def run(ctx):
             subs = ins.split(",")
             ops = es.args[1:]
             okr, why = True, ""
+            if len(out) != 4 and not any(len(sub_) == 4 for sub_ in subs):
+                continue  # a helper contraction / transposition that does not build the (modifier, sample, batch, bin) tensor: decided end to end by C01.R10
             if len(out) != 4 or len(set(out)) != 4:
                 okr, why = False, f"output '{out}' does not have four distinct axes (modifier, sample, batch, bin)"
             for sub, op in zip(subs, ops):
@@ -527,7 +529,8 @@ def _apply_end_to_end(ctx, rid, reg):
                 w = viewers.world(repo)
                 w.add_class(cl)
                 bd = {f"{key}/{m}": {s_: {"data": {"mask": list(masks[m][s_]), "nom_data": [at(f"n{j}") for j in range(4)], "uncrt": [at(f"u{j}") for j in range(4)]}} for s_ in samples} for m in mods}
-                cfg = Obj("pdfconfig", {"samples": list(samples), "channels": list(channels), "channel_nbins": {k_: c(v_) for k_, v_ in nb.items()}, "npars": c(npars), "par_map": pm})
+                cfg = Obj("pdfconfig", {"samples": list(samples), "channels": list(channels), "channel_nbins": {k_: c(v_) for k_, v_ in nb.items()}, "npars": c(npars), "par_map": pm, "par_order": list(pm)})
+                _config_methods(w, cfg, pm)
                 inst = w.new(cl, [[(m, key) for m in mods], cfg, bd], {"batch_size": None if bs is None else c(bs)})
                 pars = [at(f"p{j}") for j in range(npars)] if bs is None else [[at(f"p{r}_{j}") for j in range(npars)] for r in range(rows)]
                 out = w.call_method(inst, "apply", [pars])
@@ -732,7 +735,8 @@ def _apply_interpolating(ctx, rid, reg):
                         return d
 
                     bd = {f"{key}/{m}": {s_: {"data": data(m, s_)} for s_ in samples} for m in ("mZ", "mA")}
-                    cfg = Obj("pdfconfig", {"samples": list(samples), "channels": ["c"], "channel_nbins": {"c": c(4)}, "npars": c(4), "par_map": pm})
+                    cfg = Obj("pdfconfig", {"samples": list(samples), "channels": ["c"], "channel_nbins": {"c": c(4)}, "npars": c(4), "par_map": pm, "par_order": ["other", "mA", "mZ"]})
+                    _config_methods(w, cfg, pm)
                     inst = w.new(cl, [[("mZ", key), ("mA", key)], cfg, bd], {"interpcode": code, "batch_size": None if bs is None else c(bs)})
                     pname = (lambda r, j: f"p{j}") if bs is None else (lambda r, j: f"p{r}_{j}")
                     vals = {(0, 2): F_(1, 2), (0, 3): F_(-3, 2), (1, 2): F_(-5, 2), (1, 3): F_(2)}
@@ -836,3 +840,22 @@ def _strs(v):
     if isinstance(v, (list, tuple)):
         return [_strs(x) for x in v]
     return str(to_poly(v))
+
+
+def _config_methods(w, cfg, pm):
+    """The configuration object's accessors appliers may use (par_slice, param_set) answered from the symbolic par_map."""
+    from ..alg import NotHandled
+
+    def par_slice(recv, a, k):
+        if recv is not cfg:
+            raise NotHandled()
+        return pm[a[0]]["slice"]
+
+    def param_set(recv, a, k):
+        if recv is not cfg:
+            raise NotHandled()
+        return pm[a[0]].get("paramset", Obj(f"paramset_{a[0]}"))
+
+    w.base[".par_slice"] = par_slice
+    w.base[".param_set"] = param_set
+    w.ext = None
